@@ -106,6 +106,7 @@ def requirements(tier):
         "path-evaluated": 12000 if q else 400000,
         "roundtrip-evaluated": 12000 if q else 400000,
         "onehop-evaluated": 1000,
+        "bystander-checked": 1500, "derived-matrix-evaluated": 1500,
         "driver:set": 2000,
         "driver:copy": 2000,
         "driver:drag": 1000,
@@ -282,6 +283,58 @@ class History:
         w.update(sequence=self.seq + [T], drivers=self.drivers + [driver], attached=self.attached, target=T)
         w.update(kw)
         return w
+
+    # -- a matrix derived from the covariance by numpy is converted: the covariance itself is a bystander ----------------
+    def bystander(self, rng):
+        """Before the first hop: an inflated / combined / transposed / sliced matrix obtained from the covariance is sent to
+        another frame.  The covariance it was derived from keeps its frame label and its values (the following hops are then
+        judged as usual, so a label that no longer matches the values shows there too)."""
+        ctx, case = self.case.ctx, self.case
+        src = self.sv.cov if self.attached else self.cov
+        # only matrices that own their memory: a numpy view (cov.T, cov[:]) legitimately writes through to its base
+        kind = rng.choice(["scaled", "sum", "transposed-sum", "negated-twice"])
+        T = rng.choice(TARGETS)
+        if self.attached and rng.random() < 0.4:
+            # ... or a copy of the state (plain, or in another form) is sent to another frame and drags ITS covariance along
+            kind = rng.choice(["state-copy", "state-copy-other-form"])
+            T = rng.choice(NAMED)
+        before = (np.asarray(src).tobytes(), fname(src.frame))
+        w = dict(case.witness, derived=kind, derived_sent_to=T, attached=self.attached)
+        try:
+            if kind == "scaled":
+                der, k = src * 4.0, 4.0
+            elif kind == "sum":
+                der, k = src + src, 2.0
+            elif kind == "transposed-sum":
+                der, k = src.T + src, 2.0
+            elif kind.startswith("state-copy"):
+                cp = self.sv.copy() if kind == "state-copy" else self.sv.copy(form="cartesian" if self.sv.form.name != "cartesian" else "spherical")
+                cp.frame = T
+                der, k = cp.cov, 1.0
+                ctx.expect(fname(der.frame) == T, "C14/copy-of-state-moved-but-its-covariance-did-not-follow", dict(w, label=fname(der.frame)),
+                           f"copy of the state sent to {T}: its covariance is labelled {fname(der.frame)}")
+            else:
+                der, k = -(-src), 1.0
+            if not kind.startswith("state-copy"):
+                der.frame = T
+        except Exception as exc:
+            ctx.count("derived-matrix-conversion-not-supported:" + type(exc).__name__)
+            der = None
+        after = (np.asarray(src).tobytes(), fname(src.frame))
+        ctx.count("bystander-checked")
+        if not ctx.expect(before == after, "C14/conversion-of-a-derived-matrix-changes-the-covariance-it-came-from", dict(w, label_before=before[1], label_after=after[1]),
+                          f"converting a matrix derived from the covariance ({kind}) to {T} changed the covariance itself: frame {before[1]} -> {after[1]}, "
+                          f"values {'changed' if before[0] != after[0] else 'unchanged'}"):
+            self.broken = True
+            return False
+        if der is not None and hasattr(der, "frame"):
+            got = np.array(np.asarray(der), dtype=float) / k
+            sp, sv = cr.block_scales([case.C, case.exp[T]])
+            d = cr.scaled_maxdiff(got, case.exp[T], sp, sv)
+            ctx.count("derived-matrix-evaluated")
+            ctx.resid("derived-value", d, TOL_VALUE, key="C14/derived-matrix-value", witness=dict(w, got=got.tolist(), expected=case.exp[T].tolist()),
+                      msg=f"matrix derived from the covariance ({kind}) sent to {T}: differs from k M C M^T by {d:.3g}")
+        return True
 
     # -- one hop ----------------------------------------------------------------------------------------
     def hop(self, T, driver, rng, check=True):
@@ -481,6 +534,8 @@ def run_case(ctx, job, idx, rng, st):
             for s2 in TARGETS:
                 mode = rng.choice(["free-set", "free-mix", "attached-mix", "attached-drag"])
                 h = History(case, attached=mode.startswith("attached"))
+                if rng.random() < 0.1 and not h.bystander(rng):
+                    continue
                 for T in (s1, s2):
                     if mode == "free-set":
                         d = "set"
@@ -499,6 +554,8 @@ def run_case(ctx, job, idx, rng, st):
             L = rng.choice([1, 3, 3, 4, 4, 5, 5])
             attached = rng.random() < 0.6
             h = History(case, attached=attached)
+            if rng.random() < 0.3 and not h.bystander(rng):
+                continue
             for _k in range(L):
                 T = rng.choice(TARGETS)
                 if not h.hop(T, pick_driver(rng, h, T), rng):
